@@ -582,6 +582,22 @@ def _producers(chk, repo):
         ok = st[0].id in cfg.reachable([pn.id], include_start=False) and pn.id not in cfg.reachable([st[0].id], include_start=False)
     chk.ob("NOTIFY-1", "the previous value is read before the new one is stored", ok, mv.where(), construct=mv.ident, text="machine var prev before store")
 
+    # player variables: the change event (which PlayerPlaceholder.subscribe_attribute waits for) is posted for every simple value - an
+    # isinstance test, so that bool (a subclass of int) is included - whenever the value changed or the variable is new
+    ps_ = repo.func("mpf/core/player.py", "Player.__setattr__")
+    chk.analysed(ps_)
+    pcfg = ps_.cfg()
+    sv = [(x, c_) for x, c_ in pcfg.calls_named("_send_variable_event")]
+    chk.need(len(sv) == 1, "NOTIFY-1", "Player.__setattr__ posts the player-variable event", ps_)
+    g_ = pcfg.guards_at(sv[0][0].id)
+    ok = g_.get("isinstance(value, (int, str, float))") is True and g_.get("self._events_enabled") is True and \
+        not [k for k in g_ if k.startswith("type(")]
+    comp = pcfg.compound_guards_at(sv[0][0].id)
+    ok = ok and any(set(p_.strip() for p_ in k.split(" or ")) == {"change", "new_entry"} and v is True for k, v in comp.items())
+    chk.ob("NOTIFY-1", "a player variable posts its change event for every simple value (isinstance: bools included) that changed or is new, once events are on", ok,
+           ps_.where(sv[0][1]), detail="guards %s %s" % (sorted(k for k, v in g_.items() if v is True)[:5], sorted(comp.items())), construct=ps_.ident,
+           text="player variable event condition")
+
     dm = repo.func("mpf/core/device_monitor.py", "DeviceMonitor.__call__")
     chk.analysed(dm)
     inner = {x.name: x for x in dm.node.body if isinstance(x, ast.FunctionDef)}
@@ -748,6 +764,7 @@ def battery():
         M("current_player templates are not woken when a turn starts", "mpf/core/placeholder_manager.py", "return self._machine.events.wait_for_any_event([\"player_turn_ended\", \"player_turn_started\"])", "return self._machine.events.wait_for_event(\"player_turn_ended\")", "TABLE-8"),
         M("text template waits for all of its subscriptions", PM, "            future = Util.any(subscriptions)\n        future = asyncio.ensure_future(future)\n        return value, future", "            future = asyncio.wait(subscriptions)\n        future = asyncio.ensure_future(future)\n        return value, future", "FLOW-7"),
         M("item access of a numbered player reads the player before", PM, "                return self._machine.game.player_list[self._number][item]", "                return self._machine.game.player_list[self._number - 1][item]", "TABLE-8"),
+        M("bool player variables post no event", "mpf/core/player.py", "        if (change or new_entry) and isinstance(value, (int, str, float)):", "        if (change or new_entry) and type(value) in (int, str, float):", "NOTIFY-1"),
     ]
 
 
